@@ -111,3 +111,16 @@ pub fn run(db: &Db, sql: &str) -> Result<SqlResult, SqlErr> {
     let conn = open(db)?;
     query(&conn, sql)
 }
+
+/// The same statement with every optional query-planner optimisation of SQLite switched off
+/// (`SQLITE_TESTCTRL_OPTIMIZATIONS`). The result of a statement does not depend on the planner, so
+/// a difference between `run` and this is a defect of the engine, not of the SQL text. (Observed
+/// with the bundled 3.49.1: `SELECT id, COUNT(*) FROM (SELECT id FROM t ORDER BY id LIMIT 2) GROUP BY
+/// id ORDER BY id DESC` returns ascending ids.)
+pub fn run_unoptimized(db: &Db, sql: &str) -> Result<SqlResult, SqlErr> {
+    let conn = open(db)?;
+    unsafe {
+        rusqlite::ffi::sqlite3_test_control(rusqlite::ffi::SQLITE_TESTCTRL_OPTIMIZATIONS, conn.handle(), 0xFFFF_FFFFu32);
+    }
+    query(&conn, sql)
+}
